@@ -55,8 +55,10 @@ func isOriginAllowed(origin string, allowOrigins []string) (string, bool) {
 			if allowedURL.Scheme == originURL.Scheme &&
 				allowedURL.Port() == originURL.Port() &&
 				strings.Contains(allowedURL.Hostname(), "*") {
-				pattern := strings.ReplaceAll(allowedURL.Hostname(), "*.", "(.*\\.)?")
-				pattern = strings.ReplaceAll(pattern, "*", ".*")
+				// everything but the wildcards matches literally
+				pattern := regexp.QuoteMeta(allowedURL.Hostname())
+				pattern = strings.ReplaceAll(pattern, "\\*\\.", "(.*\\.)?")
+				pattern = strings.ReplaceAll(pattern, "\\*", ".*")
 				matched, errMatched := regexp.MatchString("^"+pattern+"$", originURL.Hostname())
 				if errMatched == nil && matched {
 					return origin, true
